@@ -375,6 +375,14 @@ Qed.
 Lemma obind_val : forall {A B} (r : out A) (f : A -> out B) b, obind r f = Val b -> exists a, r = Val a /\ f a = Val b.
 Proof. intros A B [a|] f b H; [eauto|discriminate]. Qed.
 
+Lemma all_nil_dec : forall elts : list (list byte),
+  Forall (fun e => e = []) elts \/ ~ Forall (fun e => e = []) elts.
+Proof.
+  induction elts as [|e r IH]; [left; constructor|]. destruct e as [|b e'].
+  - destruct IH as [IH|IH]; [left; constructor; [reflexivity|exact IH]|right; intros H; inversion H; contradiction].
+  - right. intros H. inversion H. discriminate.
+Qed.
+
 Theorem decoder_no_panic : forall nodes ipfx lpfx leaves m vs,
   flat_wf ipfx lpfx nodes leaves = true ->
   encode_msg nodes ipfx lpfx leaves = Val m -> init_vars m = Val vs ->
@@ -403,7 +411,7 @@ Proof.
     assert (Hlt : (ord < length (tails_of nodes))%nat) by (subst ord; apply nth_error_Some; congruence).
     destruct leaves as [elts|]; [|eexists; apply Hl].
     unfold leaves_ok in Hlv. apply Nat.eqb_eq in Hlv. destruct Hl as [Hl1 Hl2].
-    destruct (Forall_dec (fun e : list byte => e = []) (fun e => match e with [] => left eq_refl | _ :: _ => right ltac:(discriminate) end) elts) as [Ha|Hn].
+    destruct (all_nil_dec elts) as [Ha|Hn].
     + eexists. apply Hl1. exact Ha.
     + eexists. apply (proj1 (Hl2 Hn)). lia.
   - intros ith wsz from to bm plen pfxb Hg.
